@@ -23,7 +23,7 @@ Shorthand == {C("container"), C("leaf"), C("leaf-list"), C("list")}
 Unwrap(p, w, inChoice) == IF inChoice /\ p.kw \in Shorthand /\ w.kw = C("case") /\ Len(w.subs) = 1 THEN w.subs[1] ELSE w
 RECURSIVE Diff(_, _, _)
 Diff(p, w, pos) ==
-  IF p.kw # w.kw THEN "keyword"
+  IF p.kw # w.kw /\ p.kwAlt # w.kw THEN "keyword"
   ELSE IF p.argJ /\ p.arg # w.arg THEN "argument"
   ELSE IF pos /\ p.line # w.line THEN "line"
   ELSE IF pos /\ p.colJ /\ p.col # w.col THEN "column"
@@ -39,7 +39,7 @@ SameModPos(a, b) == /\ a.kw = b.kw /\ a.argJ /\ b.argJ /\ a.arg = b.arg /\ Len(a
                     /\ \A i \in 1..Len(a.subs) : SameModPos(a.subs[i], b.subs[i])
 \* the walked tree as a spec tree (for comparing two walked trees)
 RECURSIVE AsSpec(_)
-AsSpec(w) == [kw |-> w.kw, arg |-> w.arg, argJ |-> TRUE, line |-> w.line, col |-> w.col, colJ |-> TRUE, subs |-> [i \in 1..Len(w.subs) |-> AsSpec(w.subs[i])]]
+AsSpec(w) == [kw |-> w.kw, kwAlt |-> w.kw, arg |-> w.arg, argJ |-> TRUE, line |-> w.line, col |-> w.col, colJ |-> TRUE, subs |-> [i \in 1..Len(w.subs) |-> AsSpec(w.subs[i])]]
 
 TInit == l = 1 /\ nfail = 0 /\ njudged = 0
 AddFail(f) == /\ nfail' = nfail + 1
